@@ -631,3 +631,6 @@ def rst_post(ctx, st, result):
 UNITS.append(Unit("C20", "jsonargparse.typing:restricted_string_type", rst_setup, rst_post, None, expect_cover=("return",),
                   trusted=["extend_base_type: its own unit (a key already registered under the same name returns that class, under another name is refused; add_type refuses a second class of the same name)",
                            "re.compile(text) compiles with the default flags"]))
+
+from contracts.share import carried as _carried  # noqa: E402
+UNITS += _carried("C20")
